@@ -335,6 +335,8 @@ def make_codec(p, workdir=None):
 
 # --------------------------------------------------------------------------- SMILES tables
 ALPHA = 'ABCXYZabcxyz0123456789_-.'
+# every printable ASCII character that is not white space may appear in a name (chemical names: 2,4-dinitrophenol, (R)-x, a;b, N'-y)
+PUNCT = ',;:|/\\()[]{}\'"#%&*+=<>?!@^~`$'
 UNI = ['\xe9', '\xdf', '\u4e2d', '\u03b1']
 SMI_POOL = ['CCO', 'c1ccccc1', 'C[C@H](N)C(=O)O', '[Na+].[Cl-]', 'C/C=C\\C', 'CC(=O)Oc1ccccc1C(=O)O', '[13CH4]', 'N#N', 'C%12CC%12', 'O=C=O', 'F/C=C/F']
 
@@ -348,6 +350,9 @@ def draw_table(rng, i):
         s = ''.join(rng.choice(ALPHA) for _ in range(rng.randrange(1, 9)))
         if rng.random() < 0.3:
             s += rng.choice(UNI)
+        if rng.random() < 0.4:
+            j = rng.randrange(0, len(s) + 1)
+            s = s[:j] + rng.choice(PUNCT) + s[j:]
         if i % 4 == 1 and rng.random() < 0.5:        # names that are NOT good tokens: white space of Unicode or ASCII inside, or a look-alike lead byte
             s = s[:1] + rng.choice(UWS + LEAD_NOT_WS + ['\t', '\x0c', ' ']) + s[1:] + 'z'
         return s
